@@ -1,5 +1,5 @@
 (* Statement pins for the codec area. *)
-From FlacCodec Require Import Wf Spec Stream Progress EncChoice Damage Prefix Interrupted Inverse Inverse_frame Props_codec.
+From FlacCodec Require Import Wf Spec Stream Progress EncChoice Damage Prefix Interrupted Inverse Inverse_frame StreamRd StreamRd_proofs Props_codec.
 From FlacBase Require Import Crc.
 Open Scope N_scope.
 Check (C17_parse_inverts_write : forall si f bytes rest,
@@ -37,3 +37,12 @@ Check (C14_interrupted_stream : forall si fs allb g gb m fuel cur acc,
 Check (C17_write_inverts_parse : forall si bytes f rest,
   Forall byte bytes -> struct_frame si bytes = Ok (f, rest) -> frame_canonical si bytes = true ->
   exists b, write_frame f = Some b /\ bytes = b ++ rest).
+Check (C16_no_fabricated_frame : forall fuel bytes h chans rest,
+  scan fuel bytes = Ok (h, chans, rest) ->
+  exists pre b2 tl, bytes = pre ++ 255 :: b2 :: tl /\ b2 / 2 = 124 /\
+                    dec_frame None no_check (255 :: b2 :: tl) = Ok (h, chans, rest)).
+Check (C16_syncless_garbage_costs_no_frame : forall g b2 tl x fuel,
+  syncless g = true -> b2 / 2 = 124 ->
+  dec_frame None no_check (255 :: b2 :: tl) = Ok x ->
+  (length (g ++ 255%N :: b2 :: tl) < fuel)%nat ->
+  scan fuel (g ++ 255 :: b2 :: tl) = Ok x).
